@@ -35,6 +35,9 @@ for i in ids:
             if t.startswith(k):
                 checks += v
     checks = sorted(set(checks))
+    if os.environ.get("REF_CHECKS"):
+        checks = [c for c in checks if c in os.environ["REF_CHECKS"].split(",")]
+    prev = json.load(open(os.path.join(d, "meta.json"))).get("results_quick", {}) if os.path.exists(os.path.join(d, "meta.json")) else {}
     meta_path = os.path.join(d, "meta.json")
     meta = json.load(open(meta_path)) if os.path.exists(meta_path) else {}
     r = subprocess.run(["git", "-C", REPO, "apply", os.path.join(d, "patch.diff")])
@@ -50,8 +53,10 @@ for i in ids:
                           "tail": p.stdout.splitlines()[-3:] if p.returncode == 2 else None}
     finally:
         subprocess.run(["git", "-C", REPO, "checkout", "--", "."])
-    meta.update({"id": i, "kind": "behaviour-preserving rewrite", "touched": touched, "checks_run": checks, "results_quick": results,
-                 "silent": all(v["exit"] == 0 for v in results.values())})
+    merged = dict(prev)
+    merged.update(results)
+    meta.update({"id": i, "kind": "behaviour-preserving rewrite", "touched": touched, "checks_run": sorted(merged), "results_quick": merged,
+                 "silent": all(v["exit"] == 0 for v in merged.values())})
     json.dump(meta, open(meta_path, "w"), indent=1)
     rows.append((i, " ".join(f"{c}:{v['exit']}" for c, v in results.items())))
 subprocess.run(["/venv/bin/python", os.path.join(VERIF, "translator", "extract.py")], capture_output=True)
